@@ -30,17 +30,25 @@ def main (args : List String) : IO UInt32 := do
     for c in Drv.parseCases text do
       out.putStrLn s!"CASE {c.id}"
       let lines ← match c.kind with
-        | "readwig" | "wfwig" | "wfbed" =>
-          match (c.records "FILE").head? with
-          | some l =>
+        | "readwig" | "readbed" | "wfwig" | "wfbed" =>
+          match (c.records "FILEHEX").head?, (c.records "FILE").head? with
+          | some l, _ =>
+            let bytes : ByteArray := (Drv.unhex (l.getD 1 "-")).foldl (fun a b => a.push (UInt8.ofNat b)) ByteArray.empty
+            pure (match c.kind with
+              | "readwig" => Drv.readWigFile bytes c
+              | "readbed" => Drv.readBedFile bytes c
+              | "wfwig" => Drv.wfWigFile bytes
+              | _ => Drv.wfBedFile bytes)
+          | none, some l =>
             try
               let bytes ← IO.FS.readBinFile (l.getD 1 "")
               pure (match c.kind with
                 | "readwig" => Drv.readWigFile bytes c
+                | "readbed" => Drv.readBedFile bytes c
                 | "wfwig" => Drv.wfWigFile bytes
                 | _ => Drv.wfBedFile bytes)
             catch _ => pure ["R no-such-file"]
-          | none => pure ["R no-file-line"]
+          | none, none => pure ["R no-file-line"]
         | _ => pure (Drv.runCase c)
       for l in lines do out.putStrLn l
       out.putStrLn "END"
